@@ -243,6 +243,29 @@ class Verifier(Engine):
         assert isinstance(f, ast.Attribute)
         if f.attr not in ("append", "extend", "add", "update", "remove", "discard", "clear", "pop"):
             return None
+        sd = f.value
+        if isinstance(sd, ast.Call) and isinstance(sd.func, ast.Attribute) and sd.func.attr == "setdefault" and len(sd.args) == 2 and f.attr in ("append", "add"):
+            # d.setdefault(k, default).add(x)  ==  if k not in d: d[k] = default;  d[k].add(x)
+            m = self.expr(sd.func.value, st)
+            if isinstance(m.ty, MapTy):
+                k = self.coerce(self.expr(sd.args[0], st), m.ty.key)
+                self.expected_type = m.ty.val
+                try:
+                    dflt = self.coerce(self.expr(sd.args[1], st), m.ty.val)
+                finally:
+                    self.expected_type = None
+                x = self.expr(call.args[0], st)
+                has, get = self.pre.mapf(m.ty, "has"), self.pre.mapf(m.ty, "get")
+                cur = V(z3.If(has(m.t, k.t), get(m.t, k.t), dflt.t), m.ty.val)
+                if isinstance(m.ty.val, SeqTy) and f.attr == "append":
+                    inner = self.seq_app(cur, self.seq_unit(m.ty.val, x))
+                elif isinstance(m.ty.val, SetTy) and f.attr == "add":
+                    inner = V(self.pre.setf(m.ty.val, "add")(cur.t, self.coerce(x, m.ty.val.elem).t), m.ty.val)
+                else:
+                    return None
+                self._mut_outs = self.flush_raises(st)
+                self.assign_path(sd.func.value, V(self.pre.mapf(m.ty, "store")(m.t, k.t, inner.t), m.ty), st)
+                return True
         obj = self.expr(f.value, st)
         ty = obj.ty
         args = [self.expr(a, st) for a in call.args]
